@@ -1,9 +1,109 @@
-import Exmex.Model.Flat
-import Exmex.Spec.Surface
+/-
+  C01 — Evaluation follows the documented operator semantics.
+
+  Structure-level theorem: the flat expression with the structure the parser builds for a
+  well-formed expression (`Chain.flat`; that `make_expression` builds exactly this structure is
+  checked at run time on every generated case and stated separately), evaluated by the real
+  evaluation path — operand vector, stable priority order with the commutative bump, in-place
+  `eval_binary` over the bit tracker — yields the documented value `Chain.denote`, for every
+  expression, every operator table with priorities 0..=99, every data type and every variable
+  assignment, provided operators flagged commutative are associative (the re-grouping freedom the
+  property grants).
+-/
+import Exmex.Proofs.FlatDenote
+import Exmex.Proofs.Bump
+import Exmex.Proofs.SortSplit
+import Exmex.Proofs.ReduceSplit
+import Exmex.Proofs.Vars
+import Exmex.Props.C14
+import Exmex.Proofs.C01Assembly
 namespace Exmex.C01
 
 /-- unary operators compose right-to-left: the first of the chain is applied last -/
 theorem applyUn_cons {α} (I : Interp α) (u : Nat) (us : List Nat) (x : α) :
     applyUn I (u :: us) x = I.un u (applyUn I us x) := rfl
+
+/-- operators flagged commutative in the table are associative under the interpretation -/
+def FlaggedAssoc {α} (I : Interp α) (t : Table) : Prop :=
+  ∀ o b, (t[o]?).bind (·.bin) = some b → b.comm = true →
+    ∀ x y z, I.bin o (I.bin o x y) z = I.bin o x (I.bin o y z)
+
+/-- the flat expression with the structure of a well-formed expression -/
+def flatOf {α} (I : Interp α) (t : Table) (c : Chain α) : FlatEx α :=
+  { nodes := (c.flat I t c.vars 0).1, ops := (c.flat I t c.vars 0).2,
+    prioIdx := prioIdxFlat (c.flat I t c.vars 0).2 (c.flat I t c.vars 0).1,
+    vars := c.vars, text := [] }
+
+/-- **C01 (structure level).** -/
+theorem flat_eval_eq_denote {α} (I : Interp α) (t : Table) (hA : FlaggedAssoc I t)
+    (c : Chain α) (hc : c.WF t) (vals : List α) (hlen : vals.length = c.vars.length) :
+    ∃ v, c.denote I t (envOf c.vars vals I.dflt) = some v ∧
+      (flatOf I t c).eval I vals = .ok v :=
+  C01Assembly.eval_flat I t hA c hc vals hlen (flatOf I t c) rfl rfl rfl rfl
+
+/-- wrong number of values is an error, not a wrong result -/
+theorem flat_eval_arity {α} (I : Interp α) (t : Table) (c : Chain α) (vals : List α)
+    (hlen : vals.length ≠ c.vars.length) :
+    (flatOf I t c).eval I vals = .error (.err "arity") := by
+  have h : (c.vars.length != vals.length) = true := by
+    rw [bne_iff_ne]; exact fun e => hlen e.symm
+  simp only [FlatEx.eval, flatOf, h, if_true]
+
+/-! ### non-vacuity: `7 - -(2 + (x * 3)) + 1` over `Int` -/
+namespace Demo
+
+/-- `+` (priority 0, commutative), `-` (priority 0, binary and unary), `*` (priority 1, commutative) -/
+def tbl : Table :=
+  [{ repr := ['+'], bin := some ⟨0, true⟩ },
+   { repr := ['-'], bin := some ⟨0, false⟩, unary := true },
+   { repr := ['*'], bin := some ⟨1, true⟩ }]
+
+def interp : Interp Int where
+  bin := fun o x y => match o with | 0 => x + y | 1 => x - y | 2 => x * y | _ => 0
+  un := fun u x => match u with | 1 => -x | _ => x
+  const := fun _ => 0
+  ofLit := fun _ => none
+  dflt := 0
+
+/-- `7 - -(2 + (x * 3)) + 1`: paren depth 2, `-` and `+` of equal priority, a unary `-` on a group -/
+def chain : Chain Int :=
+  .cons (.lit ['7'] 7) 1
+    (.cons (.un 1 (.par (.cons (.lit ['2'] 2) 0
+        (.single (.par (.cons (.var ['x'] false) 2 (.single (.lit ['3'] 3)))))))) 0
+      (.single (.lit ['1'] 1)))
+
+theorem flaggedAssoc : FlaggedAssoc interp tbl := by
+  intro o b h hc x y z
+  match o, h with
+  | 0, _ => exact Int.add_assoc x y z
+  | 1, h =>
+    simp only [tbl] at h
+    cases h
+    cases hc
+  | 2, _ => exact Int.mul_assoc x y z
+  | _ + 3, h => simp [tbl] at h
+
+theorem wf : chain.WF tbl := by
+  simp [chain, Chain.WF, Atom.WF, tbl]
+
+/-- the hypotheses of C01 are satisfiable, and its conclusion on this instance -/
+example : ∃ v, chain.denote interp tbl (envOf chain.vars [5] interp.dflt) = some v ∧
+    (flatOf interp tbl chain).eval interp [5] = .ok v :=
+  flat_eval_eq_denote interp tbl flaggedAssoc chain wf [5] (by decide)
+
+/-- the documented value: `7 - -(2 + 5 * 3) + 1 = 25` (left-to-right among `-`, `+`) -/
+theorem denote_val : chain.denote interp tbl (envOf chain.vars [5] interp.dflt) = some 25 := by
+  rw [show chain.vars = [['x']] by decide]
+  simp [chain, Chain.denote, Chain.operands, Atom.denote, reduceChain, argmaxL, tblPrio, tbl,
+    interp, envOf]
+
+/-- and the flat evaluation (bumped `*`, unary `-` on the inner `+`, tracker) returns it -/
+example : (flatOf interp tbl chain).eval interp [5] = .ok 25 := by
+  obtain ⟨v, h1, h2⟩ := flat_eval_eq_denote interp tbl flaggedAssoc chain wf [5] (by decide)
+  rw [denote_val] at h1
+  cases h1
+  exact h2
+
+end Demo
 
 end Exmex.C01
